@@ -126,10 +126,15 @@ func (x *World) runMisc(op *model.Op, res *model.Result) *Violation {
 		if res.Panics {
 			n++
 		}
-		before := len(ecs.ComponentIDs(x.W))
+		before := ecs.ComponentIDs(x.W)
 		id := ecs.TypeID(x.W, reflect.ArrayOf(n, reflect.TypeFor[int8]()))
-		if int(id.Index()) != before {
-			return x.viol("registry", "new component type got ID %d, expected the next free ID %d", id.Index(), before)
+		for _, b := range before {
+			if b == id {
+				return x.viol("registry", "new component type got ID %d, which is already in use", id.Index())
+			}
+		}
+		if after := len(ecs.ComponentIDs(x.W)); after != len(before)+1 {
+			return x.viol("registry", "registering one component type changed the number of IDs from %d to %d", len(before), after)
 		}
 	case model.OpLoadEntities:
 		d := x.W.Unsafe().DumpEntities()
